@@ -647,3 +647,59 @@ Lemma exU_solve : tsolve (A := AF) exT_t exU_r = Ok exU_x.
 Proof. vm_compute. reflexivity. Qed.
 Lemma exU_finite : forall i, (i < tn exT_t)%nat -> ffinite (nth i exU_x 0%float).
 Proof. intros [|[|[|i]]] Hi; cbn in Hi; try lia; apply ffinite_SF; vm_compute; reflexivity. Qed.
+
+(* ---------------------------------------------------------------- a family of every size: tridiag(1, 4, 1) x = (1, ..., 1) *)
+Definition lapT (n : nat) : tridiag AF :=
+  @mkT AF (repeat 1%float (n - 1)) (repeat 4%float n) (repeat 1%float (n - 1)) n.
+
+Lemma nth_repeat_f (c : pfloat) m i : nth i (repeat c m) 0%float = if (i <? m)%nat then c else 0%float.
+Proof.
+  revert i. induction m as [|m IH]; intros [|i]; cbn [repeat nth]; try reflexivity.
+  rewrite IH. reflexivity.
+Qed.
+
+Lemma lapT_hyps n : (1 <= n)%nat ->
+  let t := lapT n in let r := repeat 1%float n in
+  wfT t /\ (1 <= tn t)%nat /\ length r = tn t /\ tri_finite t /\ tri_scaled t /\
+  (forall i, (i < tn t)%nat -> bpow radix2 (-300) <= Rabs (FR (nth i (tmain t) 0%float))) /\
+  (forall i, (i < tn t)%nat ->
+     2 * (Rabs (FR (nth i (0%float :: tsub t) 0%float)) + Rabs (FR (nth i (tsup t) 0%float)))
+     <= Rabs (FR (nth i (tmain t) 0%float))) /\
+  (forall i, (i < tn t)%nat -> ffinite (nth i r 0%float) /\ Rabs (FR (nth i r 0%float)) <= bpow radix2 300).
+Proof.
+  intros Hn. cbv zeta. unfold lapT, tri_finite, tri_scaled. cbn [tn tmain tsub tsup]. fl.
+  assert (E1 : FR 1%float = 1) by fr_eval. assert (E4 : FR 4%float = 4) by fr_eval.
+  assert (F1 : ffinite 1%float) by (apply ffinite_SF; reflexivity).
+  assert (F4 : ffinite 4%float) by (apply ffinite_SF; reflexivity).
+  assert (F0 : ffinite 0%float) by (apply ffinite_SF; reflexivity).
+  assert (B300 : 4 <= bpow radix2 300) by (change 4 with (bpow radix2 2); apply bpow_le; lia).
+  assert (Bm300 : bpow radix2 (-300) <= 1) by (change 1 with (bpow radix2 0); apply bpow_le; lia).
+  assert (A1 : Rabs 1 = 1) by (apply Rabs_pos_eq; lra). assert (A4 : Rabs 4 = 4) by (apply Rabs_pos_eq; lra).
+  split; [unfold wfT; cbn [tn tmain tsub tsup]; rewrite !repeat_length; auto|].
+  split; [exact Hn|]. split; [apply repeat_length|].
+  split; [split|].
+  - intros i Hi. rewrite nth_repeat_f. destruct (i <? n)%nat; assumption.
+  - intros i Hi. rewrite !nth_repeat_f. destruct (i <? n - 1)%nat; split; assumption.
+  - split; [split|split; [|split]].
+    + intros i Hi. rewrite nth_repeat_f. destruct (Nat.ltb_spec i n); [|lia]. rewrite E4, A4. exact B300.
+    + intros i Hi. rewrite !nth_repeat_f. destruct (Nat.ltb_spec i (n - 1)); [|lia]. rewrite E1, A1. split; right; exact Bm300.
+    + intros i Hi. rewrite nth_repeat_f. destruct (Nat.ltb_spec i n); [|lia]. rewrite E4, A4. lra.
+    + intros i Hi. rewrite (nth_repeat_f 4%float). destruct (Nat.ltb_spec i n); [|lia]. rewrite E4, A4.
+      assert (Ha : Rabs (FR (nth i (0%float :: repeat 1%float (n - 1)) 0%float)) <= 1).
+      { destruct i as [|j]; cbn [nth]; [rewrite FR_0, Rabs_R0; lra|]. rewrite nth_repeat_f.
+        destruct (j <? n - 1)%nat; [rewrite E1, A1|rewrite FR_0, Rabs_R0]; lra. }
+      assert (Hc : Rabs (FR (nth i (repeat 1%float (n - 1)) 0%float)) <= 1).
+      { rewrite nth_repeat_f. destruct (i <? n - 1)%nat; [rewrite E1, A1|rewrite FR_0, Rabs_R0]; lra. }
+      lra.
+    + intros i Hi. rewrite nth_repeat_f. destruct (Nat.ltb_spec i n); [|lia]. split; [exact F1|]. rewrite E1, A1. lra.
+Qed.
+
+(* hence, at binary64, for EVERY n >= 1: solve answers tridiag(1,4,1) x = (1,...,1) with finite components *)
+Lemma lapT_solved n : (1 <= n)%nat ->
+  exists x, tsolve (A := AF) (lapT n) (repeat 1%float n) = Ok x /\ length x = n /\
+    forall i, (i < n)%nat -> ffinite (nth i x 0%float).
+Proof.
+  intros Hn. destruct (lapT_hyps n Hn) as (W & Hn' & Hr & HF & HS & Bl & SD & Fr).
+  destruct (thomas_dominant_float_lemma (lapT n) Hn' HF HS Bl SD (repeat 1%float n) W Hr Fr) as (x & E & Lx & Fx & _).
+  exists x. split; [exact E|]. split; [exact Lx|exact Fx].
+Qed.
